@@ -21,6 +21,22 @@ theorem mkAttr_name {d : AttrDecl} {a : Attr} (h : mkAttr d = .ok a) : a.name = 
     · cases h
     · cases h; rfl
 
+theorem mkAttr_kind_override {d : AttrDecl} {a : Attr} (h : mkAttr d = .ok a) : a.kind = d.kind ∧ a.override = d.override := by
+  unfold mkAttr at h
+  cases hd : d.dflt with
+  | some v =>
+    simp only [hd] at h
+    split at h
+    · cases h
+    · split at h
+      · cases h; exact ⟨rfl, rfl⟩
+      · cases h
+  | none =>
+    simp only [hd] at h
+    split at h
+    · cases h
+    · cases h; exact ⟨rfl, rfl⟩
+
 theorem mkAttr_god {d : AttrDecl} {a : Attr} (h : mkAttr d = .ok a) : AttrGod a := by
   unfold mkAttr at h
   cases hd : d.dflt with
@@ -54,22 +70,56 @@ theorem find_some_mem {l : List Attr} {n : String} {a : Attr} (h : l.find? (fun 
   have h2 := List.find?_some h
   exact ⟨h1, by simpa using h2⟩
 
+/-- the overriding attribute, if any, else the inherited one -/
+def repl (own : List Attr) (a : Attr) : Attr := (own.find? (fun b => b.name == a.name)).getD a
+
+theorem repl_name (own : List Attr) (a : Attr) : (repl own a).name = a.name := by
+  unfold repl
+  cases hf : own.find? (fun b => b.name == a.name) with
+  | none => rfl
+  | some b => exact (find_some_mem hf).2
+
+theorem eachAttribute_cons (l : Level) (p : OType) :
+    eachAttribute (l :: p) = (eachAttribute p).map (repl l.attrs) ++
+      l.attrs.filter (fun b => !(eachAttribute p).any (fun a => a.name == b.name)) := rfl
+
 theorem findAttr_some {p : OType} {n : String} {a : Attr} (h : findAttr p n = some a) :
     a ∈ eachAttribute p ∧ a.name = n := by
   induction p with
   | nil => simp [findAttr] at h
   | cons l q ih =>
     unfold findAttr at h
+    rw [eachAttribute_cons]
     cases hf : l.attrs.find? (fun a => a.name == n) with
     | some b =>
       simp only [hf] at h
       cases h
       obtain ⟨h1, h2⟩ := find_some_mem hf
-      exact ⟨by simp [eachAttribute, h1], h2⟩
+      refine ⟨?_, h2⟩
+      rw [List.mem_append]
+      by_cases hex : ∃ x ∈ eachAttribute q, x.name = a.name
+      · left
+        obtain ⟨x, hx, hxn⟩ := hex
+        rw [List.mem_map]
+        refine ⟨x, hx, ?_⟩
+        unfold repl
+        rw [hxn, h2, hf]; rfl
+      · right
+        rw [List.mem_filter]
+        refine ⟨h1, ?_⟩
+        simp only [Bool.not_eq_true', List.any_eq_false, beq_iff_eq]
+        intro x hx hxn
+        exact hex ⟨x, hx, hxn⟩
     | none =>
       simp only [hf] at h
       obtain ⟨h1, h2⟩ := ih h
-      exact ⟨by simp [eachAttribute, h1], h2⟩
+      refine ⟨?_, h2⟩
+      rw [List.mem_append]
+      left
+      rw [List.mem_map]
+      refine ⟨a, h1, ?_⟩
+      unfold repl
+      rw [h2, hf]; rfl
 
 theorem findAttr_none {p : OType} {n : String} (h : findAttr p n = none) : ∀ a ∈ eachAttribute p, a.name ≠ n := by
   induction p with
@@ -81,10 +131,14 @@ theorem findAttr_none {p : OType} {n : String} (h : findAttr p n = none) : ∀ a
     | none =>
       simp only [hf] at h
       intro a ha
-      simp only [eachAttribute, List.mem_append] at ha
+      rw [eachAttribute_cons, List.mem_append] at ha
       rcases ha with ha | ha
-      · exact ih h a ha
-      · have := List.find?_eq_none.mp hf a ha
+      · rw [List.mem_map] at ha
+        obtain ⟨x, hx, rfl⟩ := ha
+        rw [repl_name]
+        exact ih h x hx
+      · rw [List.mem_filter] at ha
+        have := List.find?_eq_none.mp hf a ha.1
         simpa using this
 
 theorem findAttr_cons (l : Level) (p : OType) (n : String) : findAttr (l :: p) n = lookupMember l.attrs p n := by
@@ -92,17 +146,8 @@ theorem findAttr_cons (l : Level) (p : OType) (n : String) : findAttr (l :: p) n
 
 /-! ### defineAttrs -/
 
-theorem assertOverride_ok {parent : OType} {a : Attr} (h : assertOverride parent a = .ok ()) :
-    findAttr parent a.name = none := by
-  unfold assertOverride at h
-  cases hf : findAttr parent a.name with
-  | none => rfl
-  | some pa =>
-    simp only [hf] at h
-    split at h <;> cases h
-
 theorem defineAttrs_ok {parent : OType} {ds : List AttrDecl} {as : List Attr} (h : defineAttrs parent ds = .ok as) :
-    as.map (·.name) = ds.map (·.name) ∧ (∀ a ∈ as, AttrGod a) ∧ (∀ a ∈ as, findAttr parent a.name = none) := by
+    as.map (·.name) = ds.map (·.name) ∧ (∀ a ∈ as, AttrGod a) := by
   induction ds generalizing as with
   | nil => simp [defineAttrs] at h; subst h; simp
   | cons d ds ih =>
@@ -120,18 +165,13 @@ theorem defineAttrs_ok {parent : OType} {ds : List AttrDecl} {as : List Attr} (h
         | ok as' =>
           simp only [hr] at h
           cases h
-          obtain ⟨h1, h2, h3⟩ := ih hr
-          refine ⟨by simp [h1, mkAttr_name hm], ?_, ?_⟩
-          · intro b hb
-            simp at hb
-            rcases hb with hb | hb
-            · subst hb; exact mkAttr_god hm
-            · exact h2 b hb
-          · intro b hb
-            simp at hb
-            rcases hb with hb | hb
-            · subst hb; exact assertOverride_ok ho
-            · exact h3 b hb
+          obtain ⟨h1, h2⟩ := ih hr
+          refine ⟨by simp [h1, mkAttr_name hm], ?_⟩
+          intro b hb
+          simp at hb
+          rcases hb with hb | hb
+          · subst hb; exact mkAttr_god hm
+          · exact h2 b hb
 
 /-! ### types as `define` leaves them -/
 
@@ -165,21 +205,30 @@ theorem define_ok {env : List OType} {d : Def} {t : OType} (h : define env d = .
         exact ⟨attrs, rfl, hs, rfl⟩
 
 theorem typeOK_cons {l : Level} {p : OType} (hp : TypeOK p) (hnd : (l.attrs.map (·.name)).Nodup)
-    (hg : ∀ a ∈ l.attrs, AttrGod a) (hnone : ∀ a ∈ l.attrs, findAttr p a.name = none) : TypeOK (l :: p) := by
+    (hg : ∀ a ∈ l.attrs, AttrGod a) : TypeOK (l :: p) := by
   constructor
-  · simp only [eachAttribute, List.map_append]
-    rw [List.nodup_append]
-    refine ⟨hp.nodup, hnd, ?_⟩
+  · rw [eachAttribute_cons, List.map_append, List.map_map]
+    have hnames : (fun x => x.name) ∘ repl l.attrs = fun x => x.name := by
+      funext a; exact repl_name l.attrs a
+    rw [hnames, List.nodup_append]
+    refine ⟨hp.nodup, (List.filter_sublist.map _).nodup hnd, ?_⟩
     intro x hx y hy hxy
-    simp only [List.mem_map] at hx hy
+    simp only [List.mem_map, List.mem_filter] at hx hy
     obtain ⟨a, ha, rfl⟩ := hx
-    obtain ⟨b, hb, rfl⟩ := hy
-    exact findAttr_none (hnone b hb) a ha hxy
+    obtain ⟨b, ⟨_, hb⟩, rfl⟩ := hy
+    simp only [Bool.not_eq_true', List.any_eq_false, beq_iff_eq] at hb
+    exact hb a ha hxy
   · intro a ha
-    simp only [eachAttribute, List.mem_append] at ha
+    rw [eachAttribute_cons, List.mem_append] at ha
     rcases ha with ha | ha
-    · exact hp.god a ha
-    · exact hg a ha
+    · rw [List.mem_map] at ha
+      obtain ⟨x, hx, rfl⟩ := ha
+      unfold repl
+      cases hf : l.attrs.find? (fun b => b.name == x.name) with
+      | none => exact hp.god x hx
+      | some b => exact hg b (find_some_mem hf).1
+    · rw [List.mem_filter] at ha
+      exact hg a ha.1
 
 /-! ### the layout invariant -/
 
@@ -340,11 +389,11 @@ theorem define_wf {env : List OType} {d : Def} {t : OType} (henv : ∀ t' ∈ en
       cases hj : env[j]? with
       | none => simp; exact typeOK_nil
       | some t' => simp; exact henv t' (List.mem_of_getElem? hj)
-  obtain ⟨h1, h2, h3⟩ := defineAttrs_ok hattrs
+  obtain ⟨h1, h2⟩ := defineAttrs_ok hattrs
   subst ht
   have hok := typeOK_cons
     (l := ⟨env.length, attrs, d.equality.toList?, d.includeType.getD true, d.serialization⟩)
-    hparent (by simpa [h1] using hnd) h2 h3
+    hparent (by simpa [h1] using hnd) h2
   refine ⟨hok, ?_⟩
   rcases Option.eq_none_or_eq_some d.serialization with hs | ⟨ser, hs⟩
   · exact wf_noSerialization hok hs
@@ -370,17 +419,41 @@ theorem mkAttr_succeeds {d : AttrDecl} (h : AttrDeclOK d) : ∃ a, mkAttr d = .o
     simp only [hd] at h ⊢
     simp [h]
 
+/-- the declared attribute may stand where it stands: a fresh name without `override`, or a proper override (a constant
+    — final — is overridden by a constant only; the type may only narrow) -/
+def OverrideOK (parent : OType) (d : AttrDecl) : Prop :=
+  match findAttr parent d.name with
+  | none => d.override = false
+  | some pa => d.override = true ∧ (pa.kind = .constant → d.kind = .constant) ∧ ∀ a, mkAttr d = .ok a → asg pa.ty a.ty = true
+
+theorem assertOverride_succeeds {parent : OType} {d : AttrDecl} {a : Attr} (h : OverrideOK parent d)
+    (ha : mkAttr d = .ok a) : assertOverride parent a = .ok () := by
+  obtain ⟨hk, ho⟩ := mkAttr_kind_override ha
+  unfold OverrideOK at h
+  unfold assertOverride
+  rw [mkAttr_name ha]
+  cases hf : findAttr parent d.name with
+  | none =>
+    simp only [hf] at h
+    simp [ho, h]
+  | some pa =>
+    simp only [hf] at h
+    obtain ⟨h1, h2, h3⟩ := h
+    have hfin : (pa.kind == Kind.constant && a.kind != Kind.constant) = false := by
+      by_cases hc : pa.kind = .constant
+      · simp [hk, h2 hc]
+      · simp [hc]
+    simp [hfin, ho, h1, h3 a ha]
+
 theorem defineAttrs_succeeds {parent : OType} {ds : List AttrDecl} (hok : ∀ d ∈ ds, AttrDeclOK d)
-    (hfresh : ∀ d ∈ ds, findAttr parent d.name = none) : ∃ as, defineAttrs parent ds = .ok as := by
+    (hov : ∀ d ∈ ds, OverrideOK parent d) : ∃ as, defineAttrs parent ds = .ok as := by
   induction ds with
   | nil => exact ⟨[], rfl⟩
   | cons d ds ih =>
     obtain ⟨a, ha⟩ := mkAttr_succeeds (hok d (by simp))
-    obtain ⟨as, has⟩ := ih (fun x hx => hok x (by simp [hx])) (fun x hx => hfresh x (by simp [hx]))
-    have hov : assertOverride parent a = .ok () := by
-      unfold assertOverride
-      rw [mkAttr_name ha, hfresh d (by simp)]
-    exact ⟨a :: as, by unfold defineAttrs; simp [ha, hov, has]⟩
+    obtain ⟨as, has⟩ := ih (fun x hx => hok x (by simp [hx])) (fun x hx => hov x (by simp [hx]))
+    have hov' := assertOverride_succeeds (hov d (by simp)) ha
+    exact ⟨a :: as, by unfold defineAttrs; simp [ha, hov', has]⟩
 
 theorem checkEquality_succeeds {own : List Attr} {parent : OType} {l : List String}
     (h : ∀ n ∈ l, ∃ a, lookupMember own parent n = some a ∧ a.kind ≠ .constant ∧ n ∉ equalityAttributes parent) :
